@@ -278,6 +278,7 @@ func paWriteHits(c *ctx, fn string) []string {
 
 type paNames struct {
 	sweepRaw, sweepPre, sweepSuf string
+	walkDeleteGuard, walkSkipGuard string
 	ctRaw, ctPre, ctSuf          string
 	rndPre, rndSuf               string
 	scheme                       string
@@ -315,6 +316,7 @@ func paTempNames(c *ctx) paNames {
 	if !skip {
 		fail("%s: DeleteTempFilesIfExist no longer returns filepath.SkipDir for sub directories", c.pos(dt))
 	}
+	n.walkDeleteGuard, n.walkSkipGuard = paWalkCallback(c, dt, w[0])
 	// createTempFile
 	ct := c.funcDecl(paRepo, "Repository", "createTempFile")
 	cc := paCalls(ct.Body, "os.CreateTemp")
@@ -839,6 +841,11 @@ func genPaths(c *ctx, out string) {
 	l := newLean("Paths", "Crv.Paths")
 	l.p("open Crv.Paths")
 	l.p("")
+	l.p("/-- crlrepository.go:DeleteTempFilesIfExist — the filepath.Walk callback: for which entries `deleteIfTempFileOrDir` is called")
+	l.p("and for which `filepath.SkipDir` is returned (\"nonroot\" = every entry but work_dir itself, \"dir-nonroot\" = every directory but")
+	l.p("work_dir itself, \"never\"). SkipDir returned for a *file* makes Walk skip the rest of that file's directory. -/")
+	l.p("def walkDeleteGuard : String := %s", leanStr(n.walkDeleteGuard))
+	l.p("def walkSkipGuard : String := %s", leanStr(n.walkSkipGuard))
 	l.p("/-- crlrepository.go:deleteIfTempFileOrDir — the pattern as written in the source -/")
 	l.p("def tempPatternRaw : String := %s", leanStr(n.sweepRaw))
 	l.p("/-- crlrepository.go:createTempFile — os.CreateTemp pattern -/")
@@ -915,4 +922,66 @@ func (c *ctx) loadedInference(ae *ast.FuncDecl) bool {
 		fail("%s: addNewEmptyEntry: the inference of Loaded from the store found on disk is not recognised", c.pos(ae))
 	}
 	return res
+}
+
+
+// paWalkCallback reads the callback of the filepath.Walk in DeleteTempFilesIfExist statement by statement.
+func paWalkCallback(c *ctx, dt *ast.FuncDecl, walk *ast.CallExpr) (del, skip string) {
+	fl, ok := walk.Args[1].(*ast.FuncLit)
+	if !ok {
+		fail("%s: DeleteTempFilesIfExist: the walk callback is not a function literal", c.pos(walk))
+	}
+	const root = "os.SameFile(info, repoDirBasePath)"
+	del, skip = "never", "never"
+	rootGone := false // an earlier statement has returned nil for work_dir itself
+	guard := func(cond string) string {
+		switch cond {
+		case "!" + root:
+			return "nonroot"
+		case "info.IsDir() && !" + root, "!" + root + " && info.IsDir()":
+			return "dir-nonroot"
+		case "info.IsDir()":
+			if rootGone {
+				return "dir-nonroot"
+			}
+			return "dir"
+		case "":
+			if rootGone {
+				return "nonroot"
+			}
+			return "always"
+		}
+		fail("%s: DeleteTempFilesIfExist: unrecognised condition in the walk callback: %s", c.pos(fl), cond)
+		return ""
+	}
+	for _, st := range fl.Body.List {
+		src := c.src(st)
+		switch {
+		case src == "if err != nil { return err }":
+		case src == "if "+root+" { return nil }":
+			rootGone = true
+		case src == "return nil":
+		case src == "R.deleteIfTempFileOrDir(path, info)":
+			del = guard("")
+		case src == "return filepath.SkipDir":
+			skip = guard("")
+		default:
+			ifs, isIf := st.(*ast.IfStmt)
+			if !isIf || ifs.Else != nil || ifs.Init != nil || len(ifs.Body.List) != 1 {
+				fail("%s: DeleteTempFilesIfExist: unrecognised statement in the walk callback: %s", c.pos(st), src)
+			}
+			switch c.src(ifs.Body.List[0]) {
+			case "R.deleteIfTempFileOrDir(path, info)":
+				del = guard(c.src(ifs.Cond))
+			case "return filepath.SkipDir":
+				skip = guard(c.src(ifs.Cond))
+			default:
+				fail("%s: DeleteTempFilesIfExist: unrecognised statement in the walk callback: %s", c.pos(st), src)
+			}
+		}
+	}
+	if del == "always" || del == "dir" || skip == "always" || skip == "dir" {
+		fail("%s: DeleteTempFilesIfExist: the walk callback treats work_dir itself like its children (delete=%s skip=%s)", c.pos(fl), del, skip)
+	}
+	return del, skip
 }
